@@ -22,7 +22,8 @@ PROP = "C05"
 LEVEL = "exploration"
 
 REAL = ["direct", "arg", "default", "if"]
-ATOMS = ["", "x", "0", "1", "-1", "1.5", "1e9", "12345678901234567890", "Talk:x", "a/b/c", "{{e}}", "="]
+ATOMS = ["", "x", "0", "1", "-1", "1.5", "1e9", "12345678901234567890", "Talk:x", "a/b/c", "{{e}}", "=", "²", "{{e|²=1}}"]
+ALIASES = {"#ausdruck": "#expr", "#wenn": "#if", "kleinb": "lc", "#laenge": "#len", "auffuellen": "padleft", "seitenname": "PAGENAME"}
 TITLES = ["Tt", "Talk:x", "Special:x", "Media:x"]
 SKIP_FNS = {"#property", "#statements", "#invoke"}   # network / other properties
 SLOW_FNS = {"#time", "#timel", "#dateformat", "#formatdate"}  # dateparser: seconds per junk input
@@ -296,6 +297,40 @@ def work(payload, skip, report):
                             acc.violation("parserfn_total:" + fn + ":" + type(e).__name__, case,
                                           type(e).__name__ + ": " + str(e)[:100], "in-band error string or fallback")
             acc.sample({"function": fn, "vectors": len(vecs)})
+    elif kind == "alias":
+        # the same functions reached through parser_function_aliases (a context option)
+        close_ctx(ctx)
+        ctx = new_ctx(parser_function_aliases=dict(ALIASES))
+        ctx.add_page("Template:e", 10, "")
+        i = 0
+        for alias, target in ALIASES.items():
+            if target == "#expr":
+                vecs = [(" ".join(t),) for n in (1, 2, 3) for t in itertools.product(EXPR_Q[:16], repeat=n) if n < 3 or t[1] in ("/", "e", "^", "round")]
+            else:
+                vecs = [()] + [(a,) for a in ATOMS] + list(itertools.product(ATOMS[:8], repeat=2))
+            for vec in vecs:
+                text = "{{" + alias + (":" + "|".join(vec) if vec else "") + "}}"
+                for page in (text, "x " + text + " {{e|" + text + "}} " + text):
+                    case = {"input": page, "aliases": ALIASES}
+                    if i in skip:
+                        acc.violation("returns_in_time:alias", case, "hang", "returns")
+                        i += 1
+                        continue
+                    report(i)
+                    i += 1
+                    ctx.start_page("Tt")
+                    acc.case()
+                    try:
+                        with time_limit(5.0):
+                            got = ctx.expand(page)
+                        acc.distinct("cases", got)
+                        if list(ctx.expand_stack) != ["Tt"]:
+                            acc.violation("alias_call_total", case, {"expand_stack": list(ctx.expand_stack)[:6]}, ["Tt"])
+                    except Timeout:
+                        acc.violation("returns_in_time:alias", case, "no result within 5 s", "returns")
+                    except Exception as e:
+                        acc.violation("alias_call_total", case, type(e).__name__ + ": " + str(e)[:100], "in-band error string")
+        acc.sample({"aliases": ALIASES})
     elif kind == "expr":
         _, alpha, prefix, length = payload
         alphabet = EXPR if alpha == "T" else EXPR_Q
@@ -352,7 +387,7 @@ def work(payload, skip, report):
 def replay(case):
     if "input" not in case:
         return None
-    ctx = new_ctx()
+    ctx = new_ctx(parser_function_aliases=dict(case["aliases"])) if "aliases" in case else new_ctx()
     ctx.add_page("Template:e", 10, "")
     out = []
     try:
@@ -390,6 +425,7 @@ def main(run):
     fns = sorted(k for k in PARSER_FUNCTIONS if k not in SKIP_FNS)
     for fn in fns:
         chunks.append(("fns", [fn], run.tier))
+    chunks.append(("alias",))
     chunks.append(("expr", "Q" if q else "T", (), 1))
     chunks.append(("expr", "Q" if q else "T", (), 2))
     for t in (EXPR_Q if q else EXPR):
